@@ -1,0 +1,15 @@
+//go:build verif
+// +build verif
+
+package netceptor
+
+// VerifSetRoute installs an arbitrary next hop for a destination in the routing table, bypassing the routing
+// protocol. It exists only in builds with the "verif" tag and is used by the external verification harness to
+// create inconsistent or looping routing tables (hop-limit checks). The next routing table recomputation
+// overwrites the entry.
+func (s *Netceptor) VerifSetRoute(dest string, nextHop string) {
+	s.AddNameHash(dest)
+	s.routingTableLock.Lock()
+	defer s.routingTableLock.Unlock()
+	s.routingTable[dest] = nextHop
+}
